@@ -1421,6 +1421,9 @@ func (c *Client) sendSingleMsg(client *smtp.Client, message *Msg) error {
 		}
 		if resetSendErr := client.Reset(); resetSendErr != nil {
 			retError.errlist = append(retError.errlist, resetSendErr)
+			// Without an acknowledged RSET the state of the transaction on the server
+			// is unknown. We must not start the next transaction on this connection.
+			_ = client.Close()
 		}
 		return retError
 	}
@@ -1444,16 +1447,24 @@ func (c *Client) sendSingleMsg(client *smtp.Client, message *Msg) error {
 	if hasError {
 		if resetSendErr := client.Reset(); resetSendErr != nil {
 			rcptSendErr.errlist = append(rcptSendErr.errlist, resetSendErr)
+			_ = client.Close()
 		}
 		return rcptSendErr
 	}
 	writer, err := client.Data()
 	if err != nil {
-		return &SendError{
+		retError := &SendError{
 			Reason: ErrSMTPData, errlist: []error{err}, isTemp: isTempError(err),
 			affectedMsg: message, errcode: errorCode(err),
 			enhancedStatusCode: enhancedStatusCode(err, escSupport),
 		}
+		// The server refused the DATA command, but the mail transaction (MAIL/RCPT) is
+		// still open. It has to be aborted before the next message can be sent.
+		if resetSendErr := client.Reset(); resetSendErr != nil {
+			retError.errlist = append(retError.errlist, resetSendErr)
+			_ = client.Close()
+		}
+		return retError
 	}
 	_, err = message.WriteTo(writer)
 	if err != nil {
